@@ -70,6 +70,32 @@ def make_cases(rng, tier, maxl):
         ecps = [gen.rand_ecp(rng, rng.randint(1, 2), pts[c], nper=(1, 1), amin=0.3, amax=4.0)]
         cases.append({"id": "pat%d%d%d" % (a, b, c), "extra": {"order": 2}, "shells": shells, "ecps": ecps,
                       "_sa": list(range(natoms)) + [b, a], "_ea": [c]})
+    # screened stratum: one atom beyond every ECP's screening radius (every (shell, ECP) pair of its shells is masked by the API screen),
+    # listed first / in the middle / last among the shells; the rows and columns of those shells must stay zero AND keep their place
+    reps = 1 if tier == "quick" else 6
+    for order in (0, 1, 2):
+        for pos in ("first", "middle", "last", "two-far"):
+            for _ in range(reps):
+                near = [[0.0, 0.0, 0.0], [1.6, 0.7, -0.5]]
+                far = [[38.0 + rng.uniform(0, 9), -27.0 - rng.uniform(0, 9), 31.0 + rng.uniform(0, 9)], [-41.0, 36.0 + rng.uniform(0, 5), 33.0]]
+                lm = 1 if order == 2 else 2
+                nsh = [(gen.rand_shell(rng, rng.randint(0, lm), near[a], nprim=rng.randint(1, 2), emin=0.3, emax=6.0), a) for a in (0, 1, 0)]
+                fsh = [(gen.rand_shell(rng, rng.randint(0, lm), far[0], nprim=1, emin=0.8, emax=6.0), 2)]
+                if pos == "two-far":
+                    fsh.append((gen.rand_shell(rng, rng.randint(0, lm), far[1], nprim=1, emin=0.8, emax=6.0), 3))
+                if pos == "first":
+                    lst = fsh + nsh
+                elif pos == "last":
+                    lst = nsh + fsh
+                elif pos == "middle":
+                    lst = nsh[:1] + fsh + nsh[1:]
+                else:
+                    lst = fsh[:1] + nsh[:2] + fsh[1:] + nsh[2:]
+                ecps = [gen.rand_ecp(rng, rng.randint(1, 2), near[0], nper=(1, 1), amin=0.4, amax=4.0),
+                        gen.rand_ecp(rng, rng.randint(0, 2), near[1], nper=(1, 1), amin=0.4, amax=4.0)]
+                cases.append({"id": "scr%d_%s_o%d" % (n, pos, order), "extra": {"order": order}, "shells": [x[0] for x in lst], "ecps": ecps,
+                              "_sa": [x[1] for x in lst], "_ea": [0, 1]})
+                n += 1
     return cases
 
 
@@ -112,6 +138,7 @@ def run_k(res, tier):
         res.add("evaluations", int(m["cases"]))
         res.add("entries_compared", int(m["compared"]))
         res.cov["nonzero_entries"] = int(m["nonzero"])
+        res.cov["shells_masked_against_every_ecp"] = int(m.get("masked_shells", 0))
         h = hist_patterns(cases)
         res.cov["atom_pattern_histogram (Aix,Bix,Cix weak order -> number of (s1,s2,ecp) triples)"] = h
         res.cov["distinct_nontrivial"] = len(set((c["extra"]["order"], tuple(c["_sa"]), tuple(c["_ea"]), tuple(s["l"] for s in c["shells"])) for c in cases))
